@@ -653,18 +653,27 @@ def check_clear(ctx, prog, c, r, store_field):
     line = c.line
     problems = []
     root_rel, child_rel = [], []
+    sel_of = {}
     for call in rel:
         arg = strip(call.args[1])
         if arg.kind == 'load' and prog.self_field(arg) == ('root',):
             root_rel.append(call)
             continue
-        nf = prog.node_field(arg) if arg.kind == 'load' else None
-        if nf and nf[1] in (('left',), ('right',)):
-            # the node must be one read back from the free list
-            ats = origins(prog, c, nf[0])
-            if all(a[0] == 'elem' and a[1] and a[1][-1] == r['free'][-1] for a in ats):
-                child_rel.append((call, nf[1][0], arg))
-                continue
+        # `for child in [node.left, node.right]`: the value released is one of the listed links, each in turn
+        cands = [strip(x) for x in arg.args] if (arg.kind == 'phi' and arg.extra.get('anyof')) else [arg]
+        good = []
+        for cand in cands:
+            nf = prog.node_field(cand) if cand.kind == 'load' else None
+            if nf and nf[1] in (('left',), ('right',)):
+                # the node must be one read back from the free list
+                ats = origins(prog, c, nf[0])
+                if all(a[0] == 'elem' and a[1] and a[1][-1] == r['free'][-1] for a in ats):
+                    good.append((call, nf[1][0], cand))
+        if len(good) == len(cands):
+            for g_ in good:
+                child_rel.append(g_)
+                sel_of[id(g_)] = arg if len(cands) > 1 or arg is not cands[0] else None
+            continue
         problems.append('clear releases %s, which is neither the root nor a child link of a slot taken from the free list' % show(arg, 3))
     if len(root_rel) != 1:
         problems.append('clear releases the root %d times' % len(root_rel))
@@ -673,14 +682,16 @@ def check_clear(ctx, prog, c, r, store_field):
         problems.append('clear releases child links %s of each visited slot; expected exactly left and right' % sides)
     # each child release guarded by != EMPTY_REF (nullness analysis knows): reuse NULL analysis state
     na = getattr(ctx, 'null_analysis', None)
-    for call, side, arg in child_rel:
+    for cr in child_rel:
+        call, side, arg = cr
+        sel = sel_of.get(id(cr))
         guarded = False
         for s, d in b.switch_discr.items():
             d = strip(d)
             if d.kind == 'bin' and d.args[0] in ('Ne', 'Eq'):
                 x, y = strip(d.args[1]), strip(d.args[2])
                 for p, q in ((x, y), (y, x)):
-                    if prog.is_empty_ref(q) and p.kind == 'load' and prog.node_field(p) and prog.node_field(p)[1] == (side,) and strip(prog.node_field(p)[0]) is strip(prog.node_field(arg)[0]):
+                    if prog.is_empty_ref(q) and ((sel is not None and p is sel) or (p.kind == 'load' and prog.node_field(p) and prog.node_field(p)[1] == (side,) and strip(prog.node_field(p)[0]) is strip(prog.node_field(arg)[0]))):
                         from rules.gate import edge_truth
                         t = b.mir['blocks'][s]['term']
                         for succ in b.cfg.succ[s]:
@@ -736,8 +747,17 @@ def check_clear_cursor(prog, c, child_rel, r, root_rel, loops_containing):
     if not loops_containing or not root_rel:
         return 'no loop around the child releases'
     loops = cfg.loops()
-    h = sorted(loops_containing, key=lambda x: len(loops[x]))[0]
-    body = loops[h]
+    why = None
+    for h in sorted(loops_containing, key=lambda x: len(loops[x])):
+        why = check_clear_cursor_at(prog, c, child_rel, r, root_rel, h, loops[h])
+        if why is None:
+            return None
+    return why
+
+
+def check_clear_cursor_at(prog, c, child_rel, r, root_rel, h, body):
+    b = c.body
+    cfg = b.cfg
     # the slot visited: element of the free list at the cursor
     nf = prog.node_field(strip(child_rel[0][2]))
     elem = strip(nf[0])
